@@ -136,9 +136,9 @@ func runChanOnce(t *testing.T, sc CScenario) (tr Trace) {
 					case err == nil:
 						res = "v" + strconv.Itoa(item)
 					case item != 0:
-						res = "other(item with " + errName(err) + ")"
+						res = "other(item with " + errName(err, ctx, nil) + ")"
 					default:
-						res = errName(err)
+						res = errName(err, ctx, nil)
 					}
 				}()
 			case "cancelnext":
@@ -248,6 +248,9 @@ func (c *checker) checkChan(sc CScenario, cm *vlib.Model) *vlib.Model {
 	c.res.Case(strings.Join(sc.Lines(), ";"), len(tr) >= 4 && nv >= 1, nil)
 	for _, t := range traces {
 		for _, f := range monitorChan(sc, t) {
+			if !c.lim.Admit("monitor", f.Kind) {
+				continue
+			}
 			small := sc
 			small.Acts = vlib.Shrink(sc.Acts, func(as []Action) bool {
 				s2 := CScenario{Cap: sc.Cap, Acts: as}
